@@ -30,180 +30,6 @@ import (
 	"github.com/lesismal/nbio/logging"
 )
 
-// ---------------------------------------------------------------- generator
-
-func token(g *lp.Gen) string {
-	const a = "abcdefghijklmnopqrstuvwxyzABCDEFGHIJKLMNOPQRSTUVWXYZ0123456789-_.!~"
-	n := 1 + g.Intn(10)
-	b := make([]byte, n)
-	for i := range b {
-		b[i] = a[g.Intn(len(a))]
-	}
-	return string(b)
-}
-func value(g *lp.Gen) string {
-	const a = "abcdefghijklmnopqrstuvwxyz0123456789 ,;=/\"()-"
-	n := g.Intn(16)
-	b := make([]byte, n)
-	for i := range b {
-		b[i] = a[g.Intn(len(a))]
-	}
-	return strings.TrimSpace(string(b))
-}
-func body(g *lp.Gen, n int) string {
-	b := make([]byte, n)
-	for i := range b {
-		b[i] = byte(g.Intn(256))
-	}
-	return string(b)
-}
-
-func genMsg(g *lp.Gen, client bool) string {
-	var sb strings.Builder
-	if client {
-		sb.WriteString(g.Pick("HTTP/1.1", "HTTP/1.0") + " " + g.Pick("200 OK", "404 Not Found", "204 No Content", "500 Internal Server Error", "200 ", "301 Moved  Permanently") + "\r\n")
-	} else {
-		sb.WriteString(g.Pick("GET", "POST", "PUT", "DELETE", "HEAD", "OPTIONS", "PATCH", "get", "Post", "CONNECT", "TRACE") + " " + g.Pick("/", "/a/b?x=1", "*", "/echo", "/%41%zz", "/a%20b", "/x#frag") + " " + g.Pick("HTTP/1.1", "HTTP/1.0", "HTTP/1.1", "HTTP/2.0", "HTTP/1.x") + "\r\n")
-	}
-	nh := g.Intn(5)
-	for i := 0; i < nh; i++ {
-		switch g.Intn(8) {
-		case 0:
-			sb.WriteString("Host" + g.Pick(":", ": ") + g.Pick("example.com", "a.b:8080", "") + "\r\n")
-		case 1:
-			sb.WriteString(g.Pick("Connection", "connection") + ": " + g.Pick("close", "keep-alive", "Keep-Alive", "Close", "upgrade") + "\r\n")
-		default:
-			sb.WriteString(token(g) + g.Pick(":", ": ", ":  ", " :") + value(g) + g.Pick("", " ", "") + "\r\n")
-		}
-	}
-	switch g.Intn(4) {
-	case 0: // no body
-	case 1:
-		n := g.Intn(40)
-		if g.Chance(1, 12) {
-			n = g.PickInt(100, 300, 1000, 5000)
-		}
-		sb.WriteString(g.Pick("Content-Length", "content-length", "CONTENT-LENGTH") + ": " + strconv.Itoa(n) + g.Pick("", " ") + "\r\n\r\n" + body(g, n))
-		return sb.String()
-	default:
-		trailers := []string{}
-		if g.Chance(1, 2) {
-			nt := 1 + g.Intn(3)
-			for i := 0; i < nt; i++ {
-				trailers = append(trailers, "X-T"+strconv.Itoa(i))
-			}
-			sb.WriteString("Trailer: " + strings.Join(trailers, g.Pick(",", ", ")) + "\r\n")
-		}
-		sb.WriteString(g.Pick("Transfer-Encoding", "transfer-encoding") + ": " + g.Pick("chunked", "Chunked", " chunked") + "\r\n\r\n")
-		nc := g.Intn(4)
-		for i := 0; i < nc; i++ {
-			n := 1 + g.Intn(30)
-			if g.Chance(1, 15) {
-				n = g.PickInt(255, 256, 4096)
-			}
-			sb.WriteString(fmt.Sprintf(g.Pick("%x", "%X", "0%x"), n) + g.Pick("", ";ext=1", " ;a", ";abc") + "\r\n" + body(g, n) + "\r\n")
-		}
-		sb.WriteString("0\r\n")
-		for _, t := range trailers {
-			sb.WriteString(t + g.Pick(": ", ":") + g.Pick("v1", "abc def", "x") + "\r\n")
-		}
-		sb.WriteString("\r\n")
-		return sb.String()
-	}
-	sb.WriteString("\r\n")
-	return sb.String()
-}
-
-func mutate(g *lp.Gen, s string) string {
-	b := []byte(s)
-	if len(b) == 0 {
-		return s
-	}
-	switch g.Intn(9) {
-	case 0:
-		b[g.Intn(len(b))] = byte(g.Intn(256))
-	case 1:
-		i := g.Intn(len(b))
-		b = append(b[:i], b[i+1:]...)
-	case 2:
-		i := g.Intn(len(b))
-		b = append(b[:i], append([]byte{g.Pick("\r", "\n", " ", ":", "\x00", "5", "g")[0]}, b[i:]...)...)
-	case 3:
-		return strings.Replace(s, "\r\n", "\n", 1)
-	case 4:
-		return strings.Replace(s, "Content-Length: ", "Content-Length: "+g.Pick("-", "+", "x", "99999999999999999999", " ", "0x"), 1)
-	case 5:
-		return strings.Replace(s, "chunked", g.Pick("gzip", "chunked, gzip", "chunked\r\nTransfer-Encoding: chunked", "identity"), 1)
-	case 6:
-		return strings.Replace(s, "Trailer: ", "Trailer: "+g.Pick("Content-Length,", "Transfer-Encoding, ", "Trailer,", ","), 1)
-	case 7: // corrupt a chunk size line
-		return strings.Replace(s, "\r\n\r\n", "\r\n\r\n"+g.Pick("zz", "-1", "7fffffffffffffffff", "", " 5"), 1)
-	case 8: // truncate
-		return s[:g.Intn(len(s))]
-	}
-	return string(b)
-}
-
-func gen(g *lp.Gen) {
-	for cs := 0; cs < g.N; cs++ {
-		client := g.Chance(1, 4)
-		maxBody := 0
-		if g.Chance(1, 5) {
-			maxBody = 1 + g.Intn(60)
-		}
-		limit := 0
-		if g.Chance(1, 5) {
-			limit = 20 + g.Intn(200)
-		}
-		var stream string
-		if g.Chance(1, 25) { // pure random bytes
-			stream = body(g, 1+g.Intn(60))
-		} else {
-			nm := 1 + g.Intn(3)
-			for i := 0; i < nm; i++ {
-				m := genMsg(g, client)
-				if g.Chance(1, 3) {
-					m = mutate(g, m)
-				}
-				stream += m
-			}
-		}
-		cl := 0
-		if client {
-			cl = 1
-		}
-		g.P("C %d %d %d", cl, maxBody, limit)
-		rest := []byte(stream)
-		mode := g.Intn(4)
-		cut := -1
-		if mode == 3 && len(rest) > 1 { // a single cut position
-			cut = 1 + g.Intn(len(rest)-1)
-		}
-		for len(rest) > 0 {
-			n := len(rest)
-			switch mode {
-			case 0:
-				n = 1
-			case 1:
-				n = 1 + g.Intn(len(rest))
-			case 3:
-				if cut > 0 {
-					n = cut
-					cut = -1
-				}
-			}
-			if mode != 3 && n > 1 && g.Chance(1, 3) {
-				n = 1 + g.Intn(8)
-				if n > len(rest) {
-					n = len(rest)
-				}
-			}
-			g.P("D %s", lp.Hex(rest[:n]))
-			rest = rest[n:]
-		}
-	}
-}
-
 func exec(e *lp.Exec) {
 	lg := &hx.CapLogger{}
 	logging.SetLogger(lg)
@@ -274,6 +100,8 @@ func exec(e *lp.Exec) {
 		case "D":
 			seg := lp.Unhex(f[1])
 			if dead {
+				// not fed to the segmented parser any more, but part of the byte stream the one-piece run gets
+				segs = append(segs, seg)
 				e.P("> %s badurl= badproto=", line)
 				e.P("dead")
 				continue
@@ -292,6 +120,10 @@ func exec(e *lp.Exec) {
 				e.Oracle("c08-panic", "Parse recovered from a panic")
 				lg.Panics = 0
 			}
+			for _, v := range s.R.Framing {
+				e.Oracle("c08-framing-rejected", "%s", v)
+			}
+			s.R.Framing = nil
 			if r.Evs != "" {
 				allEvs = append(allEvs, r.Evs)
 			}
